@@ -44,6 +44,9 @@ type eopt struct {
 	list  []string // servers / domain names
 	num   int64    // mtu
 	str   string   // captive portal URI
+	// a second rendering that is just as good (RDNSS: the wildcard's pick is
+	// also a configured server - listed once or twice, the property does not say)
+	altFixed string
 }
 
 func (o eopt) String() string {
@@ -59,7 +62,7 @@ func (o eopt) String() string {
 }
 
 func (o eopt) matches(x xopt) bool {
-	if o.fixed != x.fixed || len(o.lo) != len(x.v) {
+	if (o.fixed != x.fixed && (o.altFixed == "" || o.altFixed != x.fixed)) || len(o.lo) != len(x.v) {
 		return false
 	}
 	for i, v := range x.v {
@@ -506,11 +509,21 @@ func expectRA(in modelIn) *modelOut {
 			}
 			servers = append(servers, best.String())
 		}
+		var once []string
 		for _, a := range statics {
 			servers = append(servers, a.String())
+			if auto && a.String() == servers[0] {
+				once = append([]string(nil), servers[:len(servers)-1]...)
+			} else if once != nil {
+				once = append(once, a.String())
+			}
 		}
 		v := m.field(fmt.Sprintf("rdnss[%d].lifetime", i), lt, max32)
-		m.opts = append(m.opts, eopt{kind: "rdnss", list: servers, fixed: "rdnss " + strings.Join(servers, ","), lo: []int64{v}, hi: []int64{v}})
+		e := eopt{kind: "rdnss", list: servers, fixed: "rdnss " + strings.Join(servers, ","), lo: []int64{v}, hi: []int64{v}}
+		if once != nil {
+			e.altFixed = "rdnss " + strings.Join(once, ",")
+		}
+		m.opts = append(m.opts, e)
 	}
 
 	for i, d := range s.DNSSL {
